@@ -424,8 +424,11 @@ def c_riks_exit(k):
     if not k.sym:
         raise K.Reject("symbolic only")
     k.covers(st.Riks.solve)
-    for scenario in ("leaves-span", "max-load-steps"):
-        solver, sysm, rec, calls = _riks(k, max_load_steps=3 if scenario == "leaves-span" else 1)
+    for scenario in ("leaves-span", "max-load-steps", "load-window-not-starting-at-0"):
+        kw = dict(max_load_steps=1) if scenario == "max-load-steps" else dict(max_load_steps=3)
+        if scenario == "load-window-not-starting-at-0":
+            kw["la_arc_span"] = np.array([-0.5, 1.0])
+        solver, sysm, rec, calls = _riks(k, **kw)
         del calls[:]
         rec.warnings.clear()
         n = sysm.nq + sysm.nla_c + sysm.nla_g + sysm.nla_N + 1
@@ -441,7 +444,7 @@ def c_riks_exit(k):
         with patched(st, **_quiet(fsolve=fs, warnings=_warnmod(rec))), npshim.active(True), k.spec():
             sol = solver.solve()
         nq, nc, ng, nN = sysm.nq, sysm.nla_c, sysm.nla_g, sysm.nla_N
-        npts = 3 if scenario == "leaves-span" else 2
+        npts = 2 if scenario == "max-load-steps" else 3
         tag = f"[{scenario}]"
         k.prove("number of nonlinear solves " + tag, len(calls) == npts)
         k.prove("all fields have one row per point (initial configuration + accepted results) " + tag, len(sol.t) == len(sol.q) == len(sol.la_c) == len(sol.la_g) == len(sol.la_N) == npts + 1)
@@ -451,7 +454,7 @@ def c_riks_exit(k):
             x = c0["x"]
             k.prove_eq(f"point {i + 1} = accepted result {i} " + tag, np.concatenate([sol.q[i + 1], sol.la_c[i + 1], sol.la_g[i + 1], sol.la_N[i + 1], [sol.t[i + 1]]]), x)
         warned = [m for o, m in rec.warnings if o == "solver"]
-        if scenario == "leaves-span":
+        if scenario != "max-load-steps":
             k.prove("leaving the load range ends the run without warning " + tag, not warned)
         else:
             k.prove("stopping because max_load_steps is exhausted inside the load range warns, naming the load factor reached " + tag, any("0.5" in m for m in warned))
